@@ -10,7 +10,7 @@ import time
 import traceback
 
 import engine
-from common import CACHE, EXIT_OK, EXIT_UNDECIDED, EXIT_VIOLATION, REPO, VERIF, Undecided, log, tree_hash, write_json
+from common import CACHE, EXIT_OK, EXIT_UNDECIDED, EXIT_VIOLATION, OUTROOT, REPO, VERIF, Undecided, log, tree_hash, write_json
 
 STANDING_ASSUMPTIONS = [
     "clang's typed AST is a faithful reading of the source that gcc compiles",
@@ -51,6 +51,16 @@ def load_baseline(prop):
         return set()
 
 
+def load_uncontracted(prop):
+    """(unit -> callees that had neither a contract nor a body on the pinned tree, unit -> functions defined in its TUs); None: not recorded"""
+    p = os.path.join(VERIF, "specs", prop, "baseline.json")
+    try:
+        j = json.load(open(p))
+        return j.get("uncontracted_callees"), j.get("functions_defined")
+    except (OSError, ValueError):
+        return None, None
+
+
 def okey(harness, o):
     # obligations generated per data member by one schema ("no container member is used before it is
     # reset") are one obligation quantified over the members: a new member is not a new obligation
@@ -73,7 +83,9 @@ class Check:
         self.pre_steps = []         # callables(check) run after lowering (conformance, inventories); may raise Undecided
         self.post_steps = []        # callables(check, results)
         self.trusted_base = []
-        self.assumptions = list(STANDING_ASSUMPTIONS)
+        self.assumptions = list(STANDING_ASSUMPTIONS) + [
+            "a called libCellML function with neither a contract nor a body in the unit returns an arbitrary value and changes nothing "
+            "(listed per unit under coverage.callees_without_contract_or_body)"]
         self.explanation = ""
         self.not_covered = []
         self.samples = []
@@ -119,8 +131,11 @@ class Check:
 
     def _run(self):
         log("[%s] tier=%s tree=%s" % (self.prop, self.tier, tree_hash()))
+        unc, fdef = (None, None) if getattr(self, "write_baseline", False) else load_uncontracted(self.prop)
+        self.unit_of = {h.name: u for (u, h) in self.harnesses}
         for spec in self.units:
-            self.built[spec.name] = engine.lower_unit(spec, self.prop)
+            self.built[spec.name] = engine.lower_unit(spec, self.prop, None if unc is None else set(unc.get(spec.name, [])),
+                                                      None if fdef is None else set(fdef.get(spec.name, [])))
             for lo in self.built[spec.name].lowered.funcs.values():
                 self.functions_under_contract.append({"function": lo.sig, "lowered_as": lo.name, "file": lo.file,
                                                       "lines": [lo.line0, lo.line1], "loops": lo.loops,
@@ -174,6 +189,11 @@ class Check:
             self.undecided.append(what + " but the counterexample does NOT reproduce on the real code (%s): "
                                   "model/lowering imprecision, see %s" % (detail, path))
         else:
+            nu = getattr(self.built.get(getattr(self, "unit_of", {}).get(h.name)), "new_unconstrained", None)
+            if nu:
+                self.undecided.append(what + "; the changed code calls %s, which has no contract in this unit and was treated as returning anything - "
+                                      "the failure may come from that over-approximation, and the native replay did not reproduce it (%s)" % (", ".join(nu), detail))
+                return
             if okey(h.name, o) in baseline:
                 for k in known:
                     if k.get("status") == "known" and self.matches_known(k, h, o, tag):
@@ -198,7 +218,7 @@ class Check:
         return True
 
     def write_replay(self, h, res, o, confirmed, detail, tag, extra):
-        d = os.path.join(VERIF, "out", "replay", self.prop)
+        d = os.path.join(OUTROOT, "out", "replay", self.prop)
         os.makedirs(d, exist_ok=True)
         path = os.path.join(d, "%s__%s.json" % (h.name, re.sub(r"[^A-Za-z0-9_.]", "_", o["id"] or "obligation")))
         write_json(path, {
@@ -274,6 +294,9 @@ class Check:
             "known_findings_hit": [k.get("id", k.get("what", "")) for (k, _w, _p) in self.known_hits],
             "repo_tree_hash": tree_hash(),
         }
+        cov["callees_without_contract_or_body"] = {n: getattr(b, "uncontracted", []) for n, b in sorted(self.built.items()) if getattr(b, "uncontracted", None)}
+        cov["callees_lowered_because_new"] = {n: b.auto_lowered for n, b in sorted(self.built.items()) if getattr(b, "auto_lowered", None)}
+        cov["new_callees_left_unconstrained"] = {n: b.new_unconstrained for n, b in sorted(self.built.items()) if getattr(b, "new_unconstrained", None)}
         cov.update(self.extra_cov)
         ev = {"property_id": self.prop, "tier": self.tier, "seed": self.seed, "level": self.level, "coverage": cov,
               "assumptions": self.assumptions, "wall_s": round(time.time() - self.t0, 1), "violations": nviol}
@@ -281,7 +304,7 @@ class Check:
             # a proof-level claim needs every obligation discharged; say what happened instead
             ev["level"] = "other"
             cov["explanation"] = ("NOT a proof in this run: %d of %d obligations discharged. " % (discharged, obligations)) + self.explanation
-        write_json(os.path.join(VERIF, "evidence", self.prop + ".json"), ev)
+        write_json(os.path.join(OUTROOT, "evidence", self.prop + ".json"), ev)
         for k, what, path in self.known_hits:
             print("KNOWN-FINDING: property=%s %s [%s]" % (self.prop, k.get("what", ""), what))
         for what, path, sfx in self.violations:
@@ -306,4 +329,6 @@ class Check:
         write_json(os.path.join(VERIF, "specs", self.prop, "baseline.json"),
                    {"note": "obligation classes discharged on the pinned tree (harness|function|class); a failing obligation "
                             "listed here is reported as a violation even when no counterexample can be replayed",
-                    "discharged": sorted(keys)})
+                    "discharged": sorted(keys),
+                    "uncontracted_callees": {n: b.uncontracted for n, b in sorted(self.built.items()) if hasattr(b, "uncontracted")},
+                    "functions_defined": {n: b.functions_defined for n, b in sorted(self.built.items()) if hasattr(b, "functions_defined")}})
